@@ -169,6 +169,68 @@ def dispatch_ids(extra):
     if not ids: raise TranslatorError('no case labels in the dispatch switch')
     return ids
 
+def config_funcs():
+    """[(func, kind)] from the `switch (result->Func)` of supla_esp_channel_config_result (devcfg build):
+    kind 1 = supla_esp_gpio_rs_apply_new_config, 2 = supla_esp_gpio_fb_apply_new_config, 0 = neither"""
+    txt = _preprocess(os.path.join(G.REPO, 'src', 'user', 'supla_esp_devconn.c'), ['-DVERIF_RETREIVE_CHANNEL_CONFIG'])
+    body = _norm(_function_body(txt, 'supla_esp_channel_config_result'))
+    m = re.search(r'switch \(result->Func\) \{', body)
+    if not m: raise TranslatorError('switch (result->Func) of supla_esp_channel_config_result not found')
+    i = m.end(); depth = 1; start = i
+    while i < len(body) and depth:
+        depth += {'{': 1, '}': -1}.get(body[i], 0); i += 1
+    sw = body[start:i - 1]
+    # groups: labels at depth 0 followed by one braced block and `break;`
+    out = []; pos = 0
+    while pos < len(sw):
+        mm = re.match(r' ?((?:case -?\d+ ?: ?)+)\{', sw[pos:])
+        if not mm: 
+            if sw[pos:].strip() == '': break
+            raise TranslatorError('config_result switch: unexpected text: %s' % sw[pos:pos + 60])
+        ids = [int(x) for x in re.findall(r'case (-?\d+)', mm.group(1))]
+        j = pos + mm.end(); depth = 1
+        while j < len(sw) and depth:
+            depth += {'{': 1, '}': -1}.get(sw[j], 0); j += 1
+        blk = sw[pos + mm.end():j - 1]
+        rsn = blk.count('supla_esp_gpio_rs_apply_new_config('); fbn = blk.count('supla_esp_gpio_fb_apply_new_config(')
+        if rsn + fbn > 1: raise TranslatorError('config_result switch: a case group calls apply_new_config more than once')
+        kind = 1 if rsn else (2 if fbn else 0)
+        for f in ids: out.append((f, kind))
+        pos = j
+    if not any(k == 1 for _, k in out) or not any(k == 2 for _, k in out):
+        raise TranslatorError('config_result switch: roller-shutter / facade-blind groups not found')
+    return out
+
+def button_guards():
+    """[(kind, entry_has_exists_guard, gm, ga, gb, im, ia)]: in *_apply_new_config the exchange of supla_input_cfg[im*c] and
+    supla_input_cfg[im*c + ia] is guarded by `gm*c + ga < gb`; the function returns at once unless 0 <= c < RS_MAX_COUNT
+    (and, when entry_has_exists_guard, unless supla_rs_cfg[c].up/down are set)"""
+    txt = _preprocess(os.path.join(G.REPO, 'src', 'user', 'supla_esp_rs_fb.c'), ['-DVERIF_RETREIVE_CHANNEL_CONFIG'])
+    out = []
+    for kind, fn, cfg in ((1, 'supla_esp_gpio_rs_apply_new_config', 'rsConfig'), (2, 'supla_esp_gpio_fb_apply_new_config', 'fbConfig')):
+        b = _norm(_function_body(txt, fn))
+        m = re.match(r'if \(channel_number < 0 \|\| channel_number >= (\d+)( \|\| supla_rs_cfg\[channel_number\]\.up == \(\(void \*\)0\) \|\| '
+                     r'supla_rs_cfg\[channel_number\]\.down == \(\(void \*\)0\))?\) \{ return; \}', b)
+        if not m: raise TranslatorError('%s: entry guard not recognised' % fn)
+        exists = 1 if m.group(2) else 0
+        idx = r'\((\d+) \* channel_number\)'
+        swap = (r'supla_esp_cfg\.ButtonsUpsideDown = \(newButtonsUpsideDown \? 1 : 0\); '
+                r'(?:if \(' + idx + r'(?: \+ (\d+))? < (\d+)\) \{ )?'
+                r'int newUpButtonGpio = supla_input_cfg\[' + idx + r' \+ (\d+)\]\.gpio_id; '
+                r'int newDownButtonGpio = supla_input_cfg\[' + idx + r'\]\.gpio_id; '
+                r'supla_input_cfg\[' + idx + r'\]\.gpio_id = newUpButtonGpio; '
+                r'supla_input_cfg\[' + idx + r' \+ (\d+)\]\.gpio_id = newDownButtonGpio; (\})?')
+        ms = list(re.finditer(swap, b))
+        if len(ms) != 1 or b.count('supla_input_cfg[') != 4:
+            raise TranslatorError('%s: button exchange not recognised (%d matches, %d index expressions)' % (fn, len(ms), b.count('supla_input_cfg[')))
+        g = ms[0].groups()
+        gm, ga, gb, i1, a1, i2, i3, i4, a4, close = g
+        if not (i1 == i2 == i3 == i4 and a1 == a4) or ((gm is None) != (close is None)):
+            raise TranslatorError('%s: button exchange uses inconsistent indices' % fn)
+        if gm is None: gm, ga, gb = 0, 0, 1          # no guard: 0 < 1
+        out.append((kind, exists, int(gm), int(ga or 0), int(gb), int(i1), int(a1)))
+    return out
+
 def _build_table():
     rules = srpc_rules()
     L = []
@@ -188,6 +250,10 @@ def _build_table():
                 a += ['offsetof(%s, %s)' % (T, f), 'sizeof(((%s *)0)->%s)' % (T, f), '((__typeof__(((%s *)0)->%s))-1) < 0' % (T, f)]
                 fmt += ' %lld %lld %lld'
             row(fmt, *a)
+    for f, k in config_funcs():
+        L.append('  fprintf(stdout, "L CONFIG_FUNCS %d %d\\n");\n' % (f, k))
+    for row in button_guards():
+        L.append('  fprintf(stdout, "L BUTTON_GUARDS %s\\n");\n' % ' '.join(str(x) for x in row))
     for name, extra in (('DISPATCH_DEV', []), ('DISPATCH_DEVCFG', ['-DVERIF_RETREIVE_CHANNEL_CONFIG'])):
         for i in dispatch_ids(extra):
             L.append('  fprintf(stdout, "L %s %d\\n");\n' % (name, i))
@@ -195,7 +261,7 @@ def _build_table():
                 ints=[('SRPC_MAX_DATA_SIZE', 'SUPLA_MAX_DATA_SIZE'),
                       ('SRPC_RESULT_TRUE', 'SUPLA_RESULT_TRUE'), ('SRPC_RESULT_FALSE', 'SUPLA_RESULT_FALSE'),
                       ('SRPC_RESULT_DATA_ERROR', 'SUPLA_RESULT_DATA_ERROR')],
-                body=''.join(L), extra_names=['SRPC_ROWS', 'DISPATCH_DEV', 'DISPATCH_DEVCFG'])
+                body=''.join(L), extra_names=['SRPC_ROWS', 'DISPATCH_DEV', 'DISPATCH_DEVCFG', 'CONFIG_FUNCS', 'BUTTON_GUARDS'])
 
 class _Lazy(dict):
     """group whose content is computed from the working tree when the translator runs (not at import)"""
